@@ -13,11 +13,11 @@ PROP = "C03"
 EXTRA_GENERATORS = ["gen_tables_c03.py"]
 META = {
  "engine": "S-scheduler",
- "text": "Coq theorems (Props/C03.v, closed under the global context) about an executable model of Event.__init__ / EventDefaults / Track.perform_event (Sched/Event.v, transcribed branch by branch over a small Python-value type; parameter names, ALL_EVENT_PARAMETERS and the library defaults are regenerated from the source on every run): every chord voice of a degree event plays tonic + scale[floor(d) mod n] + octave_size*floor(floor(d)/n) + 12*octave + transpose (negative degrees descend), a note event plays note + 12*octave + transpose; amplitude/gate/channel/duration come from the event (dur, amp, velocity folded), else the timeline defaults' current value, else the generated library default, and a default never overrides an explicit value; the event type is the first present of action > patch > control > program_change > osc_address > synth > note|degree for all 2^7 subsets; control/program-change/OSC/synth/action events emit exactly the matching call; an unknown key, note with degree, or no type key raises and emits no call. The model is tied to the repository on every run: ~4000 (quick) / ~60000 (thorough) generated dictionaries are run through Event(dict, defaults) and through a one-track Timeline with a recording OutputDevice, and the Event attributes, every device call with its tick and arguments, and the escaping exception class are compared with the model inside Coq (vm_compute); an independent oracle written from docs/events judges every implementation result on the documented domain and supplies the failing input. Streams of several dictionaries are judged dictionary by dictionary on the documented time grid (a malformed dictionary at ANY position of a stream must raise and play nothing; theorems C03_reject_*_anywhere), and the timeline's defaults are re-assigned between two events of a running track (the defaults in force when a dictionary is due complete it; model Sched/EventCfg.v with the defaults object in its state, theorems C03_current_defaults_complete_the_event, C03_reassigned_default, C03_stream_without_reassignment).",
+ "text": "Coq theorems (Props/C03.v, closed under the global context) about an executable model of Event.__init__ / EventDefaults / Track.perform_event (Sched/Event.v, transcribed branch by branch over a small Python-value type; parameter names, ALL_EVENT_PARAMETERS and the library defaults are regenerated from the source on every run): every chord voice of a degree event plays tonic + scale[floor(d) mod n] + octave_size*floor(floor(d)/n) + 12*octave + transpose (negative degrees descend), a note event plays note + 12*octave + transpose; amplitude/gate/channel/duration come from the event (dur, amp, velocity folded), else the timeline defaults' current value, else the generated library default, and a default never overrides an explicit value; the event type is the first present of action > patch > control > program_change > osc_address > synth > note|degree for all 2^7 subsets; control/program-change/OSC/synth/action events emit exactly the matching call; an unknown key, note with degree, or no type key raises and emits no call. The model is tied to the repository on every run: ~4000 (quick) / ~60000 (thorough) generated dictionaries are run through Event(dict, defaults) and through a one-track Timeline with a recording OutputDevice, and the Event attributes, every device call with its tick and arguments, and the escaping exception class are compared with the model inside Coq (vm_compute); an independent oracle written from docs/events judges every implementation result on the documented domain and supplies the failing input. Streams of several dictionaries are judged dictionary by dictionary on the documented time grid (a malformed dictionary at ANY position of a stream must raise and play nothing; theorems C03_reject_*_anywhere), and the timeline's defaults are re-assigned between two events of a running track (the defaults in force when a dictionary is due complete it; model Sched/EventCfg.v with the defaults object in its state, theorems C03_current_defaults_complete_the_event, C03_reassigned_default, C03_stream_without_reassignment). Keys given as objects that are HELD and re-tuned in place between two events of the stream (key.tonic =, key.scale =, key.scale.semitones = / replaced or re-ordered in place, two keys on one Scale object; the key named by every dictionary, by some, or only by timeline.defaults.key; the stream scheduled as a pattern of dictionaries or as one dictionary of patterns): model Sched/EventHeld.v (references into the store of Key and Scale objects of Tonal/Held.v, the store in the state, every dictionary read in the store of the moment it is due), theorems C03_held_key_current, C03_held_key_pitch, C03_held_key_pitch_chord, C03_held_reject_unknown_key_anywhere, C03_held_without_retuning; the stream oracle judges every event against the key as it is when the event is due.",
  "note": "Trusted: Coq kernel + VM; gen_tables.py / gen_tables_c03.py; the Python harness (case encoding, the recording device, first-value substitution for pattern-valued dictionary entries); CPython int semantics (//, % = Z.div/Z.modulo; int(float) truncates). Modelled, not verified: floats are exact rationals in the model (the harness only generates dyadic rationals on the 1/256 grid, where isobar's round(x, 8) comparisons are exact); SignalFlow patch events are classified but not dispatched; the generic-event ('event' method) device path, on_event callbacks, interpolation and str-typed numbers are outside the model (Unmodelled outcome, such cases are discarded and counted).",
 }
 
-HEADER = """From Isobar Require Import Base.Prelude Tonal.Key Generated.Tables Generated.TablesC03 Sched.Event Sched.EventCfg.
+HEADER = """From Isobar Require Import Base.Prelude Tonal.Key Tonal.Held Generated.Tables Generated.TablesC03 Sched.Event Sched.EventCfg Sched.EventHeld.
 From Coq Require Import String QArith.
 Local Open Scope Z_scope.
 Definition bscale (name : string) : scale :=
@@ -29,6 +29,8 @@ Definition Vs := VStr.
 Definition Vi := VInt.
 Definition C (t : Z) (m : string) (a : list val) : Z * call := (t, Call m a).
 Definition CH (t : Z) (kvs : list (string * val)) : Z * list (string * val) := (t, kvs).
+Definition MU (t : Z) (ops : list hop) : Z * list hop := (t, ops).
+Definition HK (slot : Z) : val := VObj "heldkey" slot [].
 (* Event(dict, defaults): the exception class, or Event.type (the other attributes are compared through the device calls) *)
 Definition event_agrees (defs d : dict) (exp_exn : option string) (exp_type : val) : option bool :=
   match resolve defs d, exp_exn with
@@ -138,6 +140,8 @@ def vlit(v):
     if "o" in v:
         kind, oid, ps = v["o"]
         return "(VObj %s %s %s)" % (slit(kind), zlit(oid), lst([slit(p) for p in ps]))
+    if "hk" in v:
+        return "(HK %d)" % v["hk"]
     if "p" in v:
         return "(VPat %s)" % lst([vlit(x) for x in v["p"]])
     return '(VObj "unencodable" 0 [])'
@@ -183,6 +187,8 @@ def pysrc(v):
         if kind == "scale":
             return "iso.Scale.minor"
         return "object()"
+    if "hk" in v:
+        return "held%d" % v["hk"]
     if "p" in v:
         return "iso.PSequence([%s], 1)" % ", ".join(pysrc(x) for x in v["p"])
     return "None"
@@ -199,10 +205,22 @@ def snippet(case):
              "dev = Rec()",
              "for m in ('note_on','note_off','control','program_change'): setattr(Rec, m, (lambda m: lambda self, *a: self.calls.append((m, a)))(m))",
              "tl = iso.Timeline(output_device=dev, clock_source=iso.DummyClock(ticks_per_beat=%d))" % case["tpb"]]
+    for slot, tonic, semis, osize, share in case.get("held") or []:
+        sc = "held%d.scale" % share if share is not None else "iso.Scale(%r, 'held-scale-%d', octave_size=%d)" % (semis, slot, osize)
+        lines.append("held%d = iso.Key(%d, %s)    # a Key object the user keeps and re-tunes while the track runs" % (slot, tonic, sc))
     for name, v in case["defaults"]:
         lines.append("tl.defaults.%s = %s" % (name, pysrc(v)))
     if case["mode"] == "pdict":
         lines.append("track = tl.schedule(%s, count=1)" % pysrc({"d": case["events"][0]}))
+    elif case["mode"] == "pdictseq":
+        ents = []
+        for k, _v in case["events"][0]:
+            col = [dict((kk, vv) for kk, vv in ev)[k] for ev in case["events"]]
+            if all(isinstance(v, dict) and "hk" in v for v in col) and len(set(v["hk"] for v in col)) == 1:
+                ents.append("%r: %s" % (k, pysrc(col[0])))
+            else:
+                ents.append("%r: iso.PSequence([%s], 1)" % (k, ", ".join(pysrc(v) for v in col)))
+        lines.append("track = tl.schedule({%s})" % ", ".join(ents))
     else:
         lines.append("track = tl.schedule(iso.PSequence([%s], 1))" % ", ".join(pysrc({"d": e}) for e in case["events"]))
     if case.get("muted"):
@@ -217,6 +235,21 @@ def snippet(case):
     for at, kvs in changes:
         if at >= 0:
             lines.append("    if t == %d: %s" % (at, "; ".join("tl.defaults.%s = %s" % (name, pysrc(v)) for name, v in kvs)))
+    for at, ms in case.get("muts") or []:
+        stm = []
+        for m in ms:
+            if m[0] == "tonic":
+                stm.append("held%d.tonic = %d" % (m[1], m[2]))
+            elif m[0] == "scale":
+                stm.append("held%d.scale = iso.Scale(%r, 'another held scale', octave_size=%d)" % (m[1], m[2], m[3]))
+            elif m[3] == "assign":
+                stm.append("held%d.scale.semitones = %r" % (m[1], m[2]))
+            elif m[3] == "inplace":
+                stm.append("held%d.scale.semitones[:] = %r" % (m[1], m[2]))
+            else:
+                stm.append("(lambda l: l.__setitem__(slice(None), [l[%d] if i == %d else l[%d] if i == %d else x for i, x in enumerate(l)]))(held%d.scale.semitones)   # as Scale.change()"
+                           % (m[4][1], m[4][0], m[4][0], m[4][1], m[1]))
+        lines.append("    if t == %d: %s" % (at, "; ".join(stm)))
     return "\n".join(lines)
 
 
@@ -370,6 +403,60 @@ def oracle(case, scales, note_names, _probe=False):
         return None
 
 
+class HeldStore:
+    """the Key objects a case holds ({"hk": slot}) and the Scale objects they refer to, as they are after the operations applied
+    so far; also renders the operations as Coq terms (Tonal/Held.v hop) for the model, which keeps its own store"""
+    def __init__(self, held):
+        self.scales, self.keys, self.next_oid, self.init_ops = {}, {}, 100, []
+        for slot, tonic, semis, osize, share in held or []:
+            if share is None:
+                oid = self.new_scale(semis, osize, self.init_ops)
+            else:
+                oid = self.keys[share][1]
+            self.keys[slot] = [tonic, oid]
+            self.init_ops.append("HKey %d %s %d" % (slot, zlit(tonic), oid))
+
+    def new_scale(self, semis, osize, out):
+        oid = self.next_oid
+        self.next_oid += 1
+        self.scales[oid] = [list(semis), osize]
+        out.append("HScale %d %s (mkScale %s %s)" % (oid, slit("held-scale-%d" % oid), zlist(semis), zlit(osize)))
+        return oid
+
+    def apply(self, m):
+        """perform one in-place operation; returns its Coq rendering"""
+        out = []
+        kind, slot = m[0], m[1]
+        if kind == "tonic":
+            self.keys[slot][0] = m[2]
+            out.append("HTonic %d %s" % (slot, zlit(m[2])))
+        elif kind == "scale":
+            oid = self.new_scale(m[2], m[3], out)
+            self.keys[slot][1] = oid
+            out.append("HRescale %d %d" % (slot, oid))
+        else:
+            oid = self.keys[slot][1]
+            self.scales[oid][0] = list(m[2])
+            out.append("HSemis %d %s" % (oid, zlist(m[2])))
+        return out
+
+    def kdef(self, slot):
+        t, oid = self.keys[slot]
+        return {"k": [t, list(self.scales[oid][0]), self.scales[oid][1]]}
+
+    def subst(self, v):
+        """a value with every reference to a held key replaced by the key as it is now"""
+        if isinstance(v, dict):
+            if "hk" in v:
+                return self.kdef(v["hk"])
+            if "p" in v:
+                return {"p": [self.subst(x) for x in v["p"]]}
+        return v
+
+    def subst_kvs(self, kvs):
+        return [[k, self.subst(v)] for k, v in kvs]
+
+
 def doc_param(ev, defaults, name, synonyms=()):
     """the documented value of a parameter: the event's (through its synonyms; undetermined when several are given),
     else the timeline default in force, else the library default.  Raises LookupError when undetermined."""
@@ -398,15 +485,22 @@ def doc_duration(ev, defaults):
 
 
 def stream_plan(case):
-    """Which timeline defaults are in force for the i-th dictionary of the case's stream, and at which tick it is due, by the
+    """Which timeline defaults are in force for the i-th dictionary of the case's stream, what the Key objects it refers to are at
+    that moment (third component: the dictionary with every held key replaced by its present definition), and at which tick it is due, by the
     documentation: event 0 is due at tick 0, event i+1 one documented duration after event i; an assignment
     'after tick a' is in force for every event due at a tick > a; a pattern-valued default yields one value per event
     since it was assigned.  Returns [(tick, defaults), ...], cut where the documentation stops determining the timing."""
     tpb = case["tpb"]
     changes = sorted(case.get("changes") or [], key=lambda c: c[0])
+    muts = sorted(case.get("muts") or [], key=lambda c: c[0])
+    store, mutated = HeldStore(case.get("held")), 0
     cur = [[n, v, 0] for n, v in case["defaults"]]        # name, value, values pulled since it was assigned
     plan, s, applied = [], Fraction(0), 0
     for i, ev in enumerate(case["events"]):
+        while mutated < len(muts) and muts[mutated][0] < s:   # an in-place operation after tick a: in force for everything due later
+            for m in muts[mutated][1]:
+                store.apply(m)
+            mutated += 1
         while applied < len(changes) and changes[applied][0] < s:
             for name, v in changes[applied][1]:
                 hit = [c for c in cur if c[0] == name]
@@ -415,10 +509,10 @@ def stream_plan(case):
                 else:
                     cur.append([name, v, 0])
             applied += 1
-        dfl = [[n, advance(v, k)] for n, v, k in cur]
+        dfl = [[n, store.subst(advance(v, k))] for n, v, k in cur]       # a held key: the key as it is at this moment
         if any(isinstance(v, dict) and "p" in v and not v["p"] for _n, v in dfl):
             break                                           # an exhausted pattern-valued default: not documented
-        plan.append((int(s), dfl))
+        plan.append((int(s), dfl, store.subst_kvs(ev)))
         dur = doc_duration(ev, dfl)
         if dur is None or (dur * tpb).denominator != 1:
             break
@@ -435,14 +529,14 @@ def oracle_stream(case, scales, note_names):
     Returns None, or (horizon, expected calls [[tick, method, args]], reject_tick | None): ticks below the horizon are
     determined by the documentation; when reject_tick is set the dictionary due at that tick must be rejected with an
     error and nothing of it (or of anything after it) may be played."""
-    if case.get("muted") or case["mode"] != "pseq":
+    if case.get("muted") or case["mode"] not in ("pseq", "pdictseq"):
         return None
     plan = stream_plan(case)
     horizon, reject, exp = case["nticks"], None, []
     for i, ev in enumerate(case["events"]):
         if i >= len(plan):
             break
-        s, dfl = plan[i]
+        s, dfl, ev = plan[i]
         if s >= case["nticks"]:
             break
         one = {"tpb": case["tpb"], "nticks": case["nticks"] - s, "muted": False, "mode": "pseq", "defaults": dfl, "events": [ev]}
@@ -998,6 +1092,102 @@ class Gen:
         return case, strata
 
 
+    # ---- stream G: the key of the events is ONE Key object the user holds and re-tunes in place while the track runs ----
+    def held_key(self):
+        r = self.rng
+        tpb = 4
+        strata = []
+
+        def scale_def():
+            if r.random() < 0.5:
+                semis, osize = self.scales[r.choice(self.scale_names)]
+                return list(semis), osize
+            o = r.randint(5, 24)
+            return sorted(r.sample(range(o), r.randint(2, min(9, o)))), o
+        nheld = r.choice([1, 1, 2])
+        held = []
+        for slot in range(nheld):
+            semis, osize = scale_def()
+            share = 0 if (slot == 1 and r.random() < 0.35) else None       # two Key objects on one Scale object
+            if share is not None:
+                semis, osize = held[0][2], held[0][3]
+                strata.append("held-key.two-keys-one-scale-object")
+            held.append([slot, r.choice([0, 0, 2, 5, 7, 9, r.randint(-12, 24)]), semis, osize, share])
+        store = HeldStore(held)
+        pool = r.sample(range(-9, 17), r.randint(2, 4))                 # few degrees: each is asked again after a re-tuning
+        k = r.randint(4, 8)
+        placement = r.choice(["event"] * 4 + ["default", "mixed"])
+        strata.append("held-key.key-in-" + placement)
+        defaults = []
+        if placement == "default":
+            defaults.append(["key", {"hk": 0}])                          # timeline.defaults.key = the held object
+        if r.random() < 0.3:
+            defaults.append(["octave", r.randint(2, 6)])
+        dur = r.choice([1, 1, F(0.5), 2])
+        extras = [x for x in ("octave", "transpose", "channel", "amplitude") if r.random() < 0.4]
+        fixed = {"octave": r.randint(0, 7), "transpose": r.randint(-7, 7), "channel": self.chan_value(), "amplitude": self.amp_value()}
+        vary = set(x for x in extras if r.random() < 0.4)
+        evs = []
+        for j in range(k):
+            dg = T(*[r.choice(pool) for _ in range(r.randint(2, 3))]) if r.random() < 0.25 else r.choice(pool)
+            ev = [["degree", dg]]
+            if placement == "event":
+                ev.append(["key", {"hk": r.randrange(nheld)}])
+            elif placement == "mixed":
+                ev.append(["key", {"hk": r.randrange(nheld)} if r.random() < 0.65 else self.key_value()])
+            for x in extras:
+                ev.append([x, fixed[x] if x not in vary else {"octave": lambda: r.randint(0, 7), "transpose": lambda: r.randint(-7, 7),
+                                                               "channel": self.chan_value, "amplitude": self.amp_value}[x]()])
+            ev.append(["duration", dur])
+            evs.append(ev)
+        muts, s = [], 0
+        forced_gap = r.randrange(k - 1)                                   # at least one operation falls between two events
+        for j in range(k):
+            s_next = s + int(num(dur) * tpb)
+            if j < k - 1 and (j == forced_gap or r.random() < 0.45):
+                at = r.randint(s, s_next - 1)
+                ops = []
+                for _ in range(r.choice([1, 1, 2])):
+                    slot = r.randrange(nheld)
+                    u = r.random()
+                    semis, osize = store.scales[store.keys[slot][1]]
+                    if u < 0.4:
+                        m = ["tonic", slot, r.choice([t for t in [0, 1, 2, 4, 5, 7, 9, 11, r.randint(-12, 24)] if t != store.keys[slot][0]])]
+                    elif u < 0.65:
+                        ns, no = scale_def()
+                        m = ["scale", slot, ns, no]
+                    else:
+                        v = r.random()
+                        if v < 0.4 or len(semis) < 2:
+                            m = ["semis", slot, sorted(r.sample(range(osize), r.randint(2, min(9, osize)))), "assign", None]
+                        elif v < 0.65:
+                            m = ["semis", slot, sorted(r.sample(range(osize), r.randint(2, min(9, osize)))), "inplace", None]
+                        else:
+                            i, j2 = r.sample(range(len(semis)), 2)
+                            ns = list(semis)
+                            ns[i], ns[j2] = ns[j2], ns[i]
+                            m = ["semis", slot, ns, "swap", [i, j2]]
+                    store.apply(m)
+                    ops.append(m)
+                    strata.append("held-key.retuned." + m[0] + ("." + m[3] if m[0] == "semis" else ""))
+                muts.append([at, ops])
+                if at > s:
+                    strata.append("held-key.retuned-while-a-note-may-sound")
+            s = s_next
+        uniform = placement != "mixed"
+        mode = "pdictseq" if uniform and r.random() < 0.45 else "pseq"
+        strata.append("held-key.scheduled-as-" + ("one-dict-of-patterns" if mode == "pdictseq" else "pattern-of-dicts"))
+        evs = [dedupe(ev) for ev in evs]
+        for ev in evs:
+            for _k, v in ev:
+                if notation_like(v):
+                    raise CheckError("generator emitted a string the notation parser would take: %r" % (v,))
+        case = {"tpb": tpb, "nticks": min(80, s + 8), "muted": False, "mode": mode, "defaults": defaults,
+                "events": evs, "direct": evs[0], "held": held, "muts": muts}
+        strata.append("held-key.events%d" % k)
+        return case, strata
+
+
 NOTATION = re.compile(r"^(\[|\]|-?[0-9]+(\.[0-9]+)?\b|[a-g]#?[0-9]\b)")
 
 
@@ -1096,6 +1286,11 @@ def generate(run, scales, note_names, n_total):
     for _ in range(max(40, int(n_total * 0.035))):
         case, strata = g.reconfigured()
         add(case, "reconfigured", strata)
+    # G: the key of the events is a Key object that is held and re-tuned in place between two events (each event is resolved
+    #    with the key as it is when the event is due)
+    for _ in range(max(90, int(n_total * 0.03))):
+        case, strata = g.held_key()
+        add(case, "held-key", strata)
     run.cov["type_key_subsets_reached"] = "%d of 128 subsets of {action, patch, control, program_change, osc_address, synth, note|degree}" % len({(m, s != "none") for m, s in subsets_seen})
     return cases
 
@@ -1116,6 +1311,20 @@ def cfg_term(c, fn, tail=""):
     chs = lst(["CH %s %s" % (zlit(at), dlit(kvs)) for at, kvs in sorted(c["changes"], key=lambda x: x[0])])
     return "%s %d %s %s %s %s %s %s" % (fn, c["tpb"], blit(c["muted"]), natlit(c["nticks"]), defs_lit(c["defaults"]), chs,
                                         lst([dlit(ev) for ev in c["events"]]), tail)
+
+
+def held_term(c, fn, tail=""):
+    store = HeldStore(c["held"])
+    init = lst(store.init_ops)
+    ms = []
+    for at, ops in sorted(c.get("muts") or [], key=lambda x: x[0]):
+        hops = []
+        for m in ops:
+            hops += store.apply(m)
+        ms.append("MU %s %s" % (zlit(at), lst(hops)))
+    chs = lst(["CH %s %s" % (zlit(at), dlit(kvs)) for at, kvs in sorted(c.get("changes") or [], key=lambda x: x[0])])
+    return "%s %d %s %s %s %s %s %s %s %s" % (fn, c["tpb"], blit(c["muted"]), natlit(c["nticks"]), defs_lit(c["defaults"]), chs,
+                                              init, lst(ms), lst([dlit(ev) for ev in c["events"]]), tail)
 
 
 def run_cases(run, cases, scales, note_names):
@@ -1175,7 +1384,7 @@ def run_cases(run, cases, scales, note_names):
                     "why": why, "oracle": "docs/events rendering (closed pitch formula, precedence list, synonym table, default chain)",
                     "python": snippet(c)})
         # ---- oracle for streams of several dictionaries / re-configured timelines -----------------------------------
-        if exp is None and c["mode"] == "pseq" and (len(c["events"]) > 1 or c.get("changes")):
+        if exp is None and c["mode"] in ("pseq", "pdictseq") and (len(c["events"]) > 1 or c.get("changes")):
             sexp = oracle_stream(c, scales, note_names)
             if sexp is not None and (sexp[0] > 0 or sexp[2] is not None):
                 run.cov["oracle_evaluations"] += 1
@@ -1183,13 +1392,16 @@ def run_cases(run, cases, scales, note_names):
                 if sexp[2] is not None and sexp[2] > 0:
                     run.cov["later_dictionary_rejections_judged"] = run.cov.get("later_dictionary_rejections_judged", 0) + 1
                 plan = stream_plan(c)
-                if any(at >= 0 and any(at < s_ < sexp[0] + (1 if sexp[2] is not None else 0) for s_, _d in plan) for at, _kvs in (c.get("changes") or [])):
+                if any(at >= 0 and any(at < s_ < sexp[0] + (1 if sexp[2] is not None else 0) for s_, _d, _e in plan) for at, _kvs in (c.get("changes") or [])):
                     run.cov["events_judged_after_reassigned_defaults"] = run.cov.get("events_judged_after_reassigned_defaults", 0) + 1
+                n_after = sum(1 for s_, _d, _e in plan if s_ < sexp[0] and any(at < s_ for at, _m in (c.get("muts") or [])))
+                if n_after:
+                    run.cov["events_judged_after_a_held_key_was_retuned"] = run.cov.get("events_judged_after_a_held_key_was_retuned", 0) + n_after
                 verdict = judge_stream(c, res, sexp)
                 if verdict:
                     c["oracle_failed"] = True
                     run.violation({"kind": verdict[0], "site": "Event/perform_event", "stream": c["stream"]}, {
-                        "case": {k: c[k] for k in ("tpb", "nticks", "muted", "mode", "defaults", "events", "direct", "changes", "replay_period") if k in c},
+                        "case": {k: c[k] for k in ("tpb", "nticks", "muted", "mode", "defaults", "events", "direct", "changes", "replay_period", "held", "muts") if k in c},
                         "expected": {"documented_until_tick": sexp[0], "calls": sexp[1],
                                      "rejected_at_tick": sexp[2]},
                         "observed": {"trace": res["trace"], "raise": res["raise"], "raise_at": res.get("raise_at")},
@@ -1214,6 +1426,11 @@ def run_cases(run, cases, scales, note_names):
         # ---- correspondence terms ------------------------------------------------------------------------
         me = model_events(c)
         d0 = me[0][1] if c["mode"] == "pdict" else c["direct"]
+        if c.get("held"):
+            # Event(dict, defaults) on its own: the held keys are what they were built as
+            store0 = HeldStore(c["held"])
+            d0 = store0.subst_kvs(d0)
+            me = [(store0.subst_kvs(me[0][0]), me[0][1])] + me[1:]
         evr = res["event"]
         t1 = "event_agrees %s %s %s %s" % (defs_lit(me[0][0]), dlit(d0), optlit(evr.get("raise"), slit),
                                            vlit(evr["view"]["t"][0]) if "view" in evr else "VNone")
@@ -1224,6 +1441,10 @@ def run_cases(run, cases, scales, note_names):
             # the timeline is re-configured while the track runs: the model keeps the defaults object in its state and
             # works out itself which dictionary is due under which defaults (Sched/EventCfg.v)
             t2 = cfg_term(c, "cfg_agrees", "%s %s" % (optlit(res["raise"], slit), trace_lit(res["trace"])))
+        if c.get("held"):
+            # the key of the events is a held object that is re-tuned in place while the track runs: the model keeps the store of
+            # Key and Scale objects in its state and asks the object as it is when a dictionary is due (Sched/EventHeld.v)
+            t2 = held_term(c, "held_agrees", "%s %s" % (optlit(res["raise"], slit), trace_lit(res["trace"])))
         for t, what in ((t1, "Event"), (t2, "timeline")):
             terms.append("ob (%s)" % t)
             meta.append((ci, what, "agree"))
@@ -1254,7 +1475,7 @@ def run_cases(run, cases, scales, note_names):
         run.violation({"kind": "correspondence", "site": what, "stream": c["stream"]}, {
             "broken": "correspondence model/implementation on %s (the theorems of Props/C03.v speak about Sched/Event.v, which no longer "
                       "describes this code on the input below; the input is outside the domain the documentation-oracle judges)" % what,
-            "case": {k: c[k] for k in ("tpb", "nticks", "muted", "mode", "defaults", "events", "direct", "changes", "replay_period") if k in c},
+            "case": {k: c[k] for k in ("tpb", "nticks", "muted", "mode", "defaults", "events", "direct", "changes", "replay_period", "held", "muts") if k in c},
             "observed": {"trace": res["trace"], "raise": res["raise"], "event": res["event"]},
             "coq_term": terms[i][:3000], "python": snippet(c)}, found_input=False)
     agree_terms = sum(1 for m in meta if m[2] == "agree")
@@ -1308,7 +1529,8 @@ def check(run):
                        "degree/note x key x octave x transpose x chord shape x per-voice tuples x synonyms x default overrides x pattern entries), "
                        "every subset of the six type keys x {none, note, degree, both}, malformed dictionaries, sequences of 2-3 dictionaries, "
                        "streams whose k-th dictionary (k = 0..3) is malformed, streams of 2-6 dictionaries during which timeline.defaults.<name> is "
-                       "re-assigned between two ticks (also between schedule() and the first tick, constants and patterns, replayed dictionary objects); "
+                       "re-assigned between two ticks (also between schedule() and the first tick, constants and patterns, replayed dictionary objects), "
+                       "streams of 4-8 degree events whose key is a held Key object that is re-tuned in place between two events; "
                        "distinct by the encoded case; non-trivial = the device received at least one call or an exception escaped")
 
 
@@ -1328,7 +1550,10 @@ def replay(run, doc):
     print("documented:", json.dumps(exp))
     me = model_events(case)
     evs = lst(["(%s, %s)" % (defs_lit(dfl), dlit(d)) for dfl, d in me])
-    if case.get("changes"):
+    if case.get("held"):
+        print("documented (stream):", json.dumps(oracle_stream(case, scales, note_names)))
+        print("model:", run.coq_eval(HEADER, held_term(case, "run_held")))
+    elif case.get("changes"):
         print("documented (stream):", json.dumps(oracle_stream(case, scales, note_names)))
         print("model:", run.coq_eval(HEADER, cfg_term(case, "run_cfg")))
     else:
